@@ -55,6 +55,9 @@ pub struct Shared {
 	holds: Mutex<HashMap<u64, oneshot::Sender<bool>>>,
 	/// logical-order log shared with the harness (C10): handler start/finish etc.
 	pub log: Mutex<Vec<String>>,
+	/// identifies THIS server instance (`whoami` method): other processes on the machine bind
+	/// loopback ports too, and a port freed by a stopped server can be taken over at once
+	pub nonce: u64,
 }
 
 impl Shared {
@@ -113,6 +116,7 @@ pub fn module(shared: Arc<Shared>) -> RpcModule<Arc<Shared>> {
 		a
 	})
 	.unwrap();
+	m.register_method("whoami", |_, ctx, _| ctx.nonce).unwrap();
 	m.register_method("avail", |_, _, ext: &Extensions| ext.get::<ConnectionGuard>().map(|g| g.available_connections() as u64))
 		.unwrap();
 	m.register_async_method("hold", |params, ctx, ext| async move {
@@ -270,6 +274,12 @@ pub async fn start_env(cfg: &EnvCfg) -> Env {
 		pre_released: Default::default(),
 		holds: Default::default(),
 		log: Default::default(),
+		nonce: {
+			static NEXT: std::sync::atomic::AtomicU64 = std::sync::atomic::AtomicU64::new(1);
+			let t = std::time::SystemTime::now().duration_since(std::time::UNIX_EPOCH).map(|d| d.as_nanos() as u64).unwrap_or(0);
+			let n = NEXT.fetch_add(1, std::sync::atomic::Ordering::Relaxed);
+			(t ^ ((std::process::id() as u64) << 40) ^ n.wrapping_mul(0x9E3779B97F4A7C15)) & ((1u64 << 53) - 1)
+		},
 	});
 	let cfg_max = if cfg.assembly == Assembly::TowerSet { 77 } else { cfg.max };
 	let mut b = ServerConfig::builder().max_connections(cfg_max).set_message_buffer_capacity(cfg.buffer);
